@@ -495,6 +495,16 @@ func (a *nilAnalysis) refine(d disj, cond ssa.Value, truth bool) disj {
 		n["v:"+other.Name()] = val
 		return n
 	case *ssa.Phi:
+		if bv, ok := d["b:"+x.Name()]; ok {
+			want := int8(0)
+			if c.True {
+				want = 1
+			}
+			if bv != want {
+				return nil
+			}
+			return d
+		}
 		// `x := a && b; if x {…}`: the phi of a short-circuit — the only edge that can carry c.True is refined
 		var cand ssa.Value
 		n := 0
@@ -673,31 +683,58 @@ func (a *nilAnalysis) analyse(fn *ssa.Function) map[*ssa.BasicBlock]nstate {
 				}
 			}
 			var withPhi nstate
-			for _, d := range out {
-				n := d
-				for _, in := range s.Instrs {
-					ph, ok := in.(*ssa.Phi)
-					if !ok {
-						break
-					}
-					if idx < 0 || idx >= len(ph.Edges) {
-						continue
-					}
-					if n.canon() == d.canon() {
-						n = d.clone()
-					}
+			cur := out
+			for _, in := range s.Instrs {
+				ph, ok := in.(*ssa.Phi)
+				if !ok {
+					break
+				}
+				if idx < 0 || idx >= len(ph.Edges) {
+					continue
+				}
+				var next nstate
+				for _, d := range cur {
+					n := d.clone()
+					// the phi gets a new value: facts that mention its name speak about the previous one
+					killName(n, ph.Name())
 					v := a.evalNil(ph.Edges[idx], d)
-					if v == -1 {
-						delete(n, "v:"+ph.Name())
-					} else {
+					if v != -1 {
 						n["v:"+ph.Name()] = v
 					}
 					if a.hookPhi != nil {
 						a.hookPhi(n, d, ph, ph.Edges[idx])
 					}
+					// a boolean phi (a && b stored in a variable, or a materialised condition): remember its truth value
+					// per path, splitting on the incoming condition
+					if isBoolType(ph.Type()) {
+						ev := ph.Edges[idx]
+						if cst, isC := ev.(*ssa.Const); isC && cst.Value != nil {
+							if cst.Value.String() == "true" {
+								n["b:"+ph.Name()] = 1
+							} else {
+								n["b:"+ph.Name()] = 0
+							}
+						} else if _, isPhi := ev.(*ssa.Phi); !isPhi {
+							if t := a.refine(n, ev, true); t != nil {
+								t = t.clone()
+								t["b:"+ph.Name()] = 1
+								next = append(next, t)
+							}
+							if f := a.refine(n, ev, false); f != nil {
+								f = f.clone()
+								f["b:"+ph.Name()] = 0
+								next = append(next, f)
+							}
+							continue
+						} else if bv, ok := d["b:"+ev.Name()]; ok {
+							n["b:"+ph.Name()] = bv
+						}
+					}
+					next = append(next, n)
 				}
-				withPhi = append(withPhi, n)
+				cur = next
 			}
+			withPhi = cur
 			withPhi = a.pruneDead(fn, s, withPhi)
 			old, had := states[s]
 			var nw nstate
@@ -1396,4 +1433,24 @@ func (is *interestSet) has(key string) bool {
 		}
 	}
 	return false
+}
+
+// killName removes the facts whose key mentions the SSA value `name` (as "v:name" followed by a non-digit).
+func killName(d disj, name string) {
+	pat := "v:" + name
+	for k := range d {
+		for i := strings.Index(k, pat); i >= 0; {
+			j := i + len(pat)
+			if j >= len(k) || k[j] < '0' || k[j] > '9' {
+				delete(d, k)
+				break
+			}
+			nx := strings.Index(k[j:], pat)
+			if nx < 0 {
+				break
+			}
+			i = j + nx
+		}
+	}
+	delete(d, "b:"+name)
 }
